@@ -1,1 +1,196 @@
+import CohdlVerif.Lemmas.C06Lemmas
+import CohdlVerif.Gen.C06Tables
+
 /-! C06 - property theorems (declared with their full name `C06.<name>`; helper lemmas go to Lemmas/) -/
+
+/-!
+  What is proved here is the NAMING part of C06, for every input of the mechanism (all used sets, all raw
+  names, all scope contents), plus two finite obligations on the reserved-word tables REGENERATED from
+  /repo's source on every run (Gen/C06Tables.lean).  The universal claim "every accepted design yields legal
+  VHDL" needs a model of the whole back end and is NOT proved: the rest of the property is established per
+  design by harness/vhdl_check.py on the real emitted text (see notes/C06.md).
+-/
+
+namespace CohdlVerif.C06
+
+/-- IEEE 1076-2008, 15.10 reserved words (spec list, independent of the compiler's table) -/
+def vhdl2008Words : List String := [
+  "abs", "access", "after", "alias", "all", "and", "architecture", "array", "assert", "assume",
+  "assume_guarantee", "attribute", "begin", "block", "body", "buffer", "bus", "case", "component",
+  "configuration", "constant", "context", "cover", "default", "disconnect", "downto", "else", "elsif", "end",
+  "entity", "exit", "fairness", "file", "for", "force", "function", "generate", "generic", "group", "guarded",
+  "if", "impure", "in", "inertial", "inout", "is", "label", "library", "linkage", "literal", "loop", "map",
+  "mod", "nand", "new", "next", "nor", "not", "null", "of", "on", "open", "or", "others", "out", "package",
+  "parameter", "port", "postponed", "procedure", "process", "property", "protected", "pure", "range",
+  "record", "register", "reject", "release", "rem", "report", "restrict", "restrict_guarantee", "return",
+  "rol", "ror", "select", "sequence", "severity", "shared", "signal", "sla", "sll", "sra", "srl", "strong",
+  "subtype", "then", "to", "transport", "type", "unaffected", "units", "until", "use", "variable", "vmode",
+  "vprop", "vunit", "wait", "when", "while", "with", "xnor", "xor"]
+
+/-- predefined names (types, numeric_std / std_logic_1164 functions, the helper function, literals, the
+    library of instantiated entities) that the text printed by `_vhdl_repr.py` itself relies on.  The harness
+    checks on every emitted text that each identifier that is neither declared by the text nor a reserved
+    word is in this list (completeness of the list for the generated corpus). -/
+def predefinedUsed : List String := [
+  "std_logic", "std_logic_vector", "unsigned", "signed", "boolean", "integer", "string",
+  "to_unsigned", "to_signed", "to_integer", "resize", "shift_left", "shift_right",
+  "rising_edge", "falling_edge", "cohdl_bool_to_std_logic", "true", "false", "work"]
+
+def nm (s : String) : Name := s.toList
+
+/-- names assigned in the scopes that are visible from process `p` -/
+def visible (a : Assigned) (p : List Name) : List Name :=
+  a.moduleNames ++ a.entityNames ++ a.archNames ++ p
+
+/-- the used set a `ModuleScope` starts from -/
+def moduleUsed (d : Design) : List Name := d.reserved ++ d.additional.map lower
+
+end CohdlVerif.C06
+
+open CohdlVerif.C06
+
+/-- The collision search returns a name whose lower-case form is not taken - for EVERY used set and base
+    name.  (The doubling phase ends by a pigeonhole argument on the finite used set; the bisection keeps
+    "the current candidate is free" as invariant although freeness is not monotone in the suffix.) -/
+theorem C06.suffix_search_fresh (used : List Name) (base : Name) : lower (pick used base) ∉ used :=
+  pick_fresh used base
+
+example : pick ["a".toList, "a1".toList, "a2".toList, "a4".toList] "A".toList = "A5".toList := by decide +kernel
+
+/-- freeness is not monotone in the suffix (4 is free, 5..7 are not, 8 is): the bisection is not a binary
+    search for the least free suffix, it only ever moves to candidates it has just tested -/
+example : pick (["a", "a1", "a2", "a3", "a5", "a6", "a7"].map String.toList) "a".toList = "a4".toList := by decide +kernel
+example : pick (["a", "a1", "a2", "a4", "a5", "a6", "a7"].map String.toList) "a".toList = "a8".toList := by decide +kernel
+
+/-- every assigned name is a VHDL basic identifier `letter { [_] letter_or_digit }` - whatever the raw names are
+    (holds for the repaired `complete_setup`, fixes/C06-sanitize-names.patch) -/
+theorem C06.assignNames_basic_identifier (d : Design) :
+    (∀ n ∈ (assignDesign d).moduleNames, basicId n = true) ∧
+    (∀ n ∈ (assignDesign d).entityNames, basicId n = true) ∧
+    (∀ n ∈ (assignDesign d).archNames, basicId n = true) ∧
+    (∀ p ∈ (assignDesign d).procNames, ∀ n ∈ p, basicId n = true) := by
+  refine ⟨?_, ?_, ?_, ?_⟩
+  · exact assignScope_basicId _ _
+  · exact assignScope_basicId _ _
+  · exact assignScope_basicId _ _
+  · intro p hp n hn
+    simp only [assignDesign, List.mem_map] at hp
+    rcases hp with ⟨raws, _, rfl⟩
+    exact assignScope_basicId _ _ n hn
+
+example : sanitize "a__b".toList = "a_b".toList ∧ sanitize "_".toList = "unnamed".toList ∧
+    sanitize "1x".toList = "n1x".toList ∧ sanitize "x_".toList = "x".toList ∧ sanitize "a b".toList = "a_b".toList := by decide +kernel
+
+/-- Names visible together (module, entity, architecture and one process scope) are pairwise distinct
+    case-insensitively. -/
+theorem C06.assignNames_injective (d : Design) :
+    ∀ p ∈ (assignDesign d).procNames, ((visible (assignDesign d) p).map lower).Nodup := by
+  intro p hp
+  simp only [assignDesign, List.mem_map] at hp
+  rcases hp with ⟨raws, _, rfl⟩
+  have hm := assignScope_ok d.moduleDecls (moduleUsed d)
+  have he := assignScope_ok d.entityDecls (assignScope (moduleUsed d) d.moduleDecls).2
+  have ha := assignScope_ok d.archDecls
+    ((assignScope (assignScope (moduleUsed d) d.moduleDecls).2 d.entityDecls).2 ++ d.archReserved.map lower)
+  have hpr := assignScope_ok raws (archUsed d)
+  simp only [visible, assignDesign, List.map_append]
+  have hmE : ∀ x ∈ (assignScope (moduleUsed d) d.moduleDecls).1.map lower,
+      x ∈ (assignScope (moduleUsed d) d.moduleDecls).2 := by
+    intro x hx
+    rcases List.mem_map.mp hx with ⟨n, hn, rfl⟩
+    exact hm.inUsed n hn
+  have heA : ∀ x ∈ (assignScope (assignScope (moduleUsed d) d.moduleDecls).2 d.entityDecls).1.map lower,
+      x ∈ (assignScope (assignScope (moduleUsed d) d.moduleDecls).2 d.entityDecls).2 := by
+    intro x hx
+    rcases List.mem_map.mp hx with ⟨n, hn, rfl⟩
+    exact he.inUsed n hn
+  have haP : ∀ x ∈ (assignScope ((assignScope (assignScope (moduleUsed d) d.moduleDecls).2 d.entityDecls).2
+        ++ d.archReserved.map lower) d.archDecls).1.map lower, x ∈ archUsed d := by
+    intro x hx
+    rcases List.mem_map.mp hx with ⟨n, hn, rfl⟩
+    exact ha.inUsed n hn
+  have hfresh : ∀ {used raws : List Name} (ok : ScopeOk used raws (assignScope used raws)),
+      ∀ x ∈ (assignScope used raws).1.map lower, x ∉ used := by
+    intro used raws ok x hx
+    rcases List.mem_map.mp hx with ⟨n, hn, rfl⟩
+    exact ok.fresh n hn
+  refine List.nodup_append.mpr ⟨List.nodup_append.mpr ⟨List.nodup_append.mpr ⟨hm.nodup, he.nodup, ?_⟩, ha.nodup, ?_⟩,
+    hpr.nodup, ?_⟩
+  · intro a ha1 b hb heq
+    subst heq
+    exact hfresh he a hb (hmE a ha1)
+  · intro a ha1 b hb heq
+    subst heq
+    apply hfresh ha a hb
+    apply List.mem_append_left
+    rcases List.mem_append.mp ha1 with h | h
+    · exact he.mono a (hmE a h)
+    · exact heA a h
+  · intro a ha1 b hb heq
+    subst heq
+    apply hfresh hpr a hb
+    rcases List.mem_append.mp ha1 with h | h
+    · apply ha.mono
+      apply List.mem_append_left
+      rcases List.mem_append.mp h with h | h
+      · exact he.mono a (hmE a h)
+      · exact heA a h
+    · exact haP a h
+
+example : assignDesign ⟨[nm "signal"], [], [nm "E"], [nm "clk", nm "Signal", nm "e"], [], [nm "CLK", nm "e1"], [[nm "clk1"]]⟩ =
+    ⟨[nm "E"], [nm "clk", nm "Signal1", nm "e1"], [nm "CLK1", nm "e11"], [[nm "clk11"]]⟩ := by decide +kernel
+
+/-- No assigned name is (case-insensitively) in the reserved set the module scope starts from, nor - inside
+    the architecture - in the entity's `reserved_names`. -/
+theorem C06.assignNames_avoid_reserved (d : Design) :
+    (∀ p ∈ (assignDesign d).procNames, ∀ n ∈ visible (assignDesign d) p, lower n ∉ moduleUsed d) ∧
+    (∀ p ∈ (assignDesign d).procNames, ∀ n ∈ (assignDesign d).archNames ++ p, lower n ∉ d.archReserved.map lower) := by
+  have hm := assignScope_ok d.moduleDecls (moduleUsed d)
+  have he := assignScope_ok d.entityDecls (assignScope (moduleUsed d) d.moduleDecls).2
+  have ha := assignScope_ok d.archDecls
+    ((assignScope (assignScope (moduleUsed d) d.moduleDecls).2 d.entityDecls).2 ++ d.archReserved.map lower)
+  constructor
+  · intro p hp n hn
+    simp only [assignDesign, List.mem_map] at hp
+    rcases hp with ⟨raws, _, rfl⟩
+    have hpr := assignScope_ok raws (archUsed d)
+    simp only [visible, assignDesign, List.mem_append] at hn
+    intro hin
+    rcases hn with ((h | h) | h) | h
+    · exact hm.fresh n h hin
+    · exact he.fresh n h (hm.mono _ hin)
+    · exact ha.fresh n h (List.mem_append_left _ (he.mono _ (hm.mono _ hin)))
+    · exact hpr.fresh n h (ha.mono _ (List.mem_append_left _ (he.mono _ (hm.mono _ hin))))
+  · intro p hp n hn
+    simp only [assignDesign, List.mem_map] at hp
+    rcases hp with ⟨raws, _, rfl⟩
+    have hpr := assignScope_ok raws (archUsed d)
+    simp only [assignDesign, List.mem_append] at hn
+    intro hin
+    rcases hn with h | h
+    · exact ha.fresh n h (List.mem_append_right _ hin)
+    · exact hpr.fresh n h (ha.mono _ (List.mem_append_right _ hin))
+
+/-- The compiler's reserved table (regenerated from the current source) contains every VHDL-2008 reserved word. -/
+theorem C06.reserved_covers_vhdl2008 : ∀ w ∈ vhdl2008Words, w ∈ Gen.reserved := by decide +kernel
+
+/-- ... and every predefined name the back end prints. -/
+theorem C06.reserved_covers_predefined_used : ∀ w ∈ predefinedUsed, w ∈ Gen.reserved := by decide +kernel
+
+/-- Consequence for a module scope that starts from the regenerated table: no assigned name is a VHDL-2008
+    reserved word or a predefined name the text relies on, in any letter case. -/
+theorem C06.names_never_reserved_or_predefined (d : Design)
+    (hres : ∀ w ∈ Gen.reserved, w.toList ∈ d.reserved) :
+    ∀ p ∈ (assignDesign d).procNames, ∀ n ∈ visible (assignDesign d) p,
+      ∀ w ∈ vhdl2008Words ++ predefinedUsed, lower n ≠ w.toList := by
+  intro p hp n hn w hw heq
+  have hin : w ∈ Gen.reserved := by
+    rcases List.mem_append.mp hw with h | h
+    · exact C06.reserved_covers_vhdl2008 w h
+    · exact C06.reserved_covers_predefined_used w h
+  exact (C06.assignNames_avoid_reserved d).1 p hp n hn (by
+    rw [heq]; exact List.mem_append_left _ (hres w hin))
+
+example : ∃ d : Design, (∀ w ∈ Gen.reserved, w.toList ∈ d.reserved) ∧ (assignDesign d).procNames ≠ [] :=
+  ⟨⟨Gen.reserved.map String.toList, [], [], [], [], [], [[]]⟩,
+   fun w h => List.mem_map.mpr ⟨w, h, rfl⟩, by simp [assignDesign]⟩
